@@ -53,8 +53,14 @@ theorem readLoop_none_nil (cfg : Cfg) (fuel : Nat) (s : Shard) (h1 : s.reading =
   simp [readLoop, h1, h2]
 
 theorem readLoop_none_cons (cfg : Cfg) (fuel : Nat) (s : Shard) (w : WFile) (ws : List WFile) (h1 : s.reading = none)
-    (h2 : s.waiting = w :: ws) : readLoop cfg (fuel + 1) s = readLoop cfg fuel (openNext s w ws) := by
-  simp [readLoop, h1, h2]
+    (h2 : s.waiting = w :: ws) (h3 : hasFile s.disk w.name = true) :
+    readLoop cfg (fuel + 1) s = readLoop cfg fuel (openNext s w ws) := by
+  simp [readLoop, h1, h2, h3]
+
+theorem readLoop_none_missing (cfg : Cfg) (fuel : Nat) (s : Shard) (w : WFile) (ws : List WFile) (h1 : s.reading = none)
+    (h2 : s.waiting = w :: ws) (h3 : hasFile s.disk w.name = false) :
+    readLoop cfg (fuel + 1) s = readLoop cfg fuel (skipMissing s w ws) := by
+  simp [readLoop, h1, h2, h3]
 
 theorem readLoop_some (cfg : Cfg) (fuel : Nat) (s : Shard) (name : Nat) (o : OFile) (h1 : s.reading = some name)
     (h2 : findO s.ofiles name = some o) :
@@ -117,7 +123,11 @@ theorem readLoop_spec (cfg : Cfg) : ∀ (fuel : Nat) (s : Shard) (a : Abs), Inv 
       | cons f fs =>
         have hwt : s.waiting = ⟨f.name, f.size cfg⟩ :: fs.map (fun g => ⟨g.name, g.size cfg⟩) := by
           rw [inv.waiting, hw]; rfl
-        rw [readLoop_none_cons cfg fuel s _ _ hrd hwt]
+        have hhas : hasFile s.disk f.name = true := by
+          rw [inv.disk]; unfold hasFile
+          rw [List.any_eq_true]
+          exact ⟨f.render cfg, List.mem_map.mpr ⟨f, by simp [Abs.files, hw], rfl⟩, by simp [AFile.render]⟩
+        rw [readLoop_none_cons cfg fuel s _ _ hrd hwt hhas]
         have inv1 := inv_open cfg s a f fs inv hcur hw
         obtain ⟨h1, h2⟩ := ih _ _ inv1
         have hl : (a.openA f fs).live cfg = a.live cfg := by
